@@ -16,6 +16,7 @@ func checkC19(w *World, r *Report) {
 	ro := w.Roles()
 	r.Undecided = []string{"the core equality 'inflation x supply x dt / year = amount minted over dt' is arithmetic and is not decided; only the zero cases, the guard of the division and the origin of the operands are"}
 	r.Rule("C19.zero", "P7", "reported inflation is zero when the period start is after now (Minter.CalculateInflation), for the no-minting configuration (constant), and for every configuration whose end has passed (now after end => zero; now equal to end => either)", 4)
+	r.Rule("C19.units", "P9", "units of measure over SSA: in the two inflation formulas the year constant, the period length, the elapsed time and the step length are combined in one time scale and the rate returned is a pure number (amount x year / period / supply)", 2)
 	r.Rule("C19.start", "P6,P7", "= C02.start for the inflation query: the rate is computed for the current period (result #0 of the shared selection) from the start its predecessor's end gives (params.StartTime without predecessor) - the same start the emission uses", 2)
 	r.Rule("C19.guard", "P5", "the division by the supply is dominated by the false edge of supply <= 0, whose true edge returns zero", 2)
 	r.Rule("C19.operands", "P6,P8", "the divisor originates from bank.GetSupply(params.MintDenom), the period from the selection over the stored state, the time from the block header; the constant year evaluates to 365 x 24 h; the query returns this value", 5)
@@ -27,6 +28,15 @@ func checkC19(w *World, r *Report) {
 	if mci == nil || gci == nil {
 		r.Unk("infra.anchor", "Minter.CalculateInflation / Keeper.GetCurrentInflation", "", "anchor not found")
 		return
+	}
+	// ---------- C19.units ----------
+	for _, a := range []string{"x/cfeminter/types.LinearMinting.CalculateInflation", "x/cfeminter/types.ExponentialStepMinting.CalculateInflation"} {
+		fn := w.Func(a)
+		if fn == nil {
+			r.Unk("infra.anchor", a, "", "anchor not found")
+			continue
+		}
+		unitsRule(w, r, "C19.units", fn, "inflation is a pure number per year")
 	}
 	// ---------- C19.start ----------
 	periodStartRule(w, r, "C19.start", []*ssa.Function{gci})
@@ -187,8 +197,13 @@ func checkC19(w *World, r *Report) {
 		for _, s := range cg.Sites[impl] {
 			c := siteCall(s)
 			if c != nil && hasSuffixAny(callName(c.Common()), "types.Dec.MulInt64") {
-				if k, ok := stripConv(c.Common().Args[1]).(*ssa.Const); ok && k.Value != nil {
-					// the year constant, in whatever unit the elapsed time is measured (ns, µs, ms, s)
+				// the year constant, in whatever unit the elapsed time is measured (ns, µs, ms, s), possibly
+				// rescaled by a Duration method (year.Milliseconds())
+				arg := stripConv(c.Common().Args[1])
+				if cc, isCall := arg.(*ssa.Call); isCall && len(cc.Common().Args) == 1 && strings.Contains(callName(cc.Common()), "time.Duration.") {
+					arg = stripConv(cc.Common().Args[0])
+				}
+				if k, ok := arg.(*ssa.Const); ok && k.Value != nil {
 					n, _ := constant.Int64Val(constant.ToInt(k.Value))
 					for _, unit := range []int64{1e9, 1e6, 1e3, 1} {
 						if n == int64(365*24*3600)*unit {
